@@ -986,6 +986,13 @@ def rt_cases(prop):
             if i % 6 == 1:
                 sp['verbose'] = True                       # verbose schedulers (messages only)
             flat = all(m['type'] == 'job' for m in sp['members'])
+            if i % 7 == 5 and prop not in ('C06', 'C10', 'C13') and (prop != 'C14' or flat):
+                # a session: the tree is edited (requirements, windows, jobs added or removed, read-only queries)
+                # between two or three runs of the same top scheduler; the last run is judged
+                sp['rerun'] = True
+                sp['session'] = RT.gen_session(r2, sp)
+                yield {'kind': 'rt', 'prop': prop, 'spec': sp}
+                continue
             if i % 4 == 3 and prop not in ('C06', 'C10', 'C13') and (prop != 'C14' or flat):
                 # the same tree run a second time ("in any run of any scheduler"); the second run is judged.
                 # Not for C13 (co_shutdown is sent once in a scheduler's life: "a later explicit shutdown() sends
